@@ -76,7 +76,40 @@ func init() {
 		if !ok || !types.Identical(pt.Elem(), v.T) {
 			return m.newErrorString(sym.Str("codec: cannot decode into this type"))
 		}
-		store(m.deref(c, tgt.V), copyValDeep(v.V))
+		dst := m.deref(c, tgt.V)
+		cur := load(dst)
+		store(dst, m.codecDecodeInto(v.T, cur, copyValDeep(v.V)))
 		return Iface{}
 	}
+}
+
+// codecDecodeInto mirrors how the decoder fills an existing value: a byte
+// slice that is already there and large enough is REUSED (the bytes are written
+// into its backing array, which anybody still holding the old slice sees);
+// structs are filled field by field; everything else is replaced.
+func (m *Machine) codecDecodeInto(T types.Type, cur, nv Value) Value {
+	switch u := T.Underlying().(type) {
+	case *types.Struct:
+		cs, ok1 := cur.(Struct)
+		ns, ok2 := nv.(Struct)
+		if !ok1 || !ok2 {
+			return nv
+		}
+		out := make(Struct, len(ns))
+		for i := range ns {
+			out[i] = m.codecDecodeInto(u.Field(i).Type(), cs[i], ns[i])
+		}
+		return out
+	case *types.Slice:
+		if eb, ok := u.Elem().Underlying().(*types.Basic); ok && eb.Kind() == types.Uint8 {
+			old, _ := cur.([]Value)
+			fresh, _ := nv.([]Value)
+			if old != nil && fresh != nil && cap(old) >= len(fresh) && len(fresh) > 0 {
+				re := old[:len(fresh)]
+				copy(re, fresh)
+				return re
+			}
+		}
+	}
+	return nv
 }
